@@ -341,4 +341,11 @@ def rule_e(ctx: Ctx) -> None:
                 'loop of GlobalMaps.build.')
 
 
-RULES = [rule_a, rule_b, rule_c, rule_d, rule_e]
+def rule_f(ctx: Ctx) -> None:
+    """The meaning of a schema must not depend on the order in which global components are built: a component parser that
+    narrows/widens a wildcard works on a wildcard it owns, never on the object of the referenced component (C03.g body)."""
+    from .c03 import rule_g as copy_ownership
+    copy_ownership(ctx, 'C09.f')
+
+
+RULES = [rule_a, rule_b, rule_c, rule_d, rule_e, rule_f]
